@@ -32,8 +32,11 @@ func init() {
 		Rule: "scenario = (entry point, key ring of 0..3 keys [or 99..300 keys] with per-key version counts from {0,1,99,100,101,200,250,...} in generated state mixes over all 10 version states, " +
 			"one legal AIP-158 pagination behaviour of the model service {full pages; server cap 1/50/99; ragged page lengths; ragged with empty pages that carry a token; token on the last full page followed by an empty page}, " +
 			"version template of newly created versions {enabled; pending->enabled; pending->generation failed; pending->destroyed}, keep_going). Every scenario runs once fault-free; then the same world is rebuilt and the p-th RPC fails, " +
-			"for every position p of the fault-free trace (sampled when the trace is longer than the tier's bound) with gRPC error classes in rotation. " +
-			"Oracles: (budget) the model stops answering after 2*(versions+keys)+10*pages+100 RPCs, reaching that is non-termination; (wipeout) nil result => no ENABLED/DISABLED version in the ring, and a fault-free wipeout leaves none; " +
+			"for every position p of the fault-free trace (sampled when the trace is longer than the tier's bound) with gRPC error classes in rotation; " +
+			"every such position is also the start of a burst of 3 failing RPCs, of an outage of the whole service (all later RPCs fail; any class and a transient class {UNAVAILABLE, DEADLINE_EXCEEDED, ABORTED, CANCELLED, RESOURCE_EXHAUSTED}), " +
+			"of an outage of that one method (transient class), and the moment the caller's context ends (deadline / cancellation: Done() closes and that RPC and all later ones answer the status a gRPC client makes from the context error). " +
+			"The slow batch repeats outage, method outage, burst and context end at the second poll of a version that never completes. " +
+			"Oracles: (budget) the model stops answering after 2*(versions+keys)+10*pages+100 RPCs, reaching that is non-termination (a call that goes on for 3*budget+1000 RPCs is aborted by the model); (wipeout) nil result => no ENABLED/DISABLED version in the ring, and a fault-free wipeout leaves none; " +
 			"(bootstrap) nil result => the returned name is an ENABLED version of the requested key, and when the key had an ENABLED version beforehand it is one of those (no pending one preferred, no new one minted); " +
 			"(rotation) nil result => the returned version is ENABLED; (destroy) nil result => the version is not ENABLED/DISABLED. " +
 			"Signer.Sign: for signatures of 1..512 bytes every single-bit flip of the delivered signature, every bit of signature_crc32c, the verified flags, lost request checksums, structural checksum/signature corruptions, random double flips, service errors, " +
@@ -45,6 +48,8 @@ func init() {
 			"version states change only when the service is asked (a pending version becomes enabled at a GetCryptoKeyVersion call): a legal linearisation of the real, time-driven generation",
 			"the 5-second poll interval of waitForKeyVersionGen is real time; the few scenarios that wait run concurrently in one case and nothing is decided by elapsed time",
 			"a faulted wipeout is only required to be honest (nil => complete), not complete",
+			"a fault sequence may fail every call from some point on (the quantifier's 'service errors at each call'); termination is then still demanded within the RPC budget, which leaves room for about a hundred retries but not for retrying as long as the service fails; what a call returns under an outage or an ended context is not judged beyond the nil-result rules",
+			"the caller's context is ended by the model at an RPC (a context.Context implementation without a timer), never by a clock",
 			"creation of a fresh version when a key has neither an enabled nor a pending version is the repository's choice and is not judged; typed-nil signer options and an empty signature without checksum are outside the quantifier and only noted",
 		},
 		ShardsQuick: 8, ShardsThor: 16, TimeoutS: 600, TimeoutThor: 3000, Run: run,
@@ -83,6 +88,30 @@ func faultClasses() []faultClass {
 		{"FailedPrecondition", status.Error(codes.FailedPrecondition, "verif: injected FAILED_PRECONDITION")},
 		{"plain-error", errors.New("verif: injected transport error")},
 	}
+}
+
+// transientClasses are the codes retry logic is usually written for: failures that "may go away".
+func transientClasses() []faultClass {
+	return []faultClass{
+		{"Unavailable", status.Error(codes.Unavailable, "verif: injected UNAVAILABLE")},
+		{"DeadlineExceeded", status.Error(codes.DeadlineExceeded, "verif: injected DEADLINE_EXCEEDED")},
+		{"Aborted", status.Error(codes.Aborted, "verif: injected ABORTED")},
+		{"Canceled", status.Error(codes.Canceled, "verif: injected CANCELLED")},
+		{"ResourceExhausted", status.Error(codes.ResourceExhausted, "verif: injected RESOURCE_EXHAUSTED (quota)")},
+	}
+}
+
+func planOf(mode string, at int, fc faultClass) faultPlan {
+	p := faultPlan{At: at, Mode: mode, Class: fc.name, err: fc.err}
+	switch mode {
+	case "burst":
+		p.Span = 3
+	case "ctx-deadline":
+		p.Class, p.err = "DeadlineExceeded(context)", nil
+	case "ctx-cancel":
+		p.Class, p.err = "Canceled(context)", nil
+	}
+	return p
 }
 
 // ---- scenario description ----
@@ -248,6 +277,7 @@ func (sc *scen) build() *model {
 		pages += sc.Paging.pages(len(sc.Keys), 100)
 	}
 	m.budget = 2*(nver+len(sc.Keys)) + 10*pages + 100
+	m.hardLimit = 3*m.budget + 1000
 	return m
 }
 
@@ -271,9 +301,9 @@ func (sc *scen) targetKeyName() string {
 }
 
 // call runs the entry point of the scenario on a freshly built world.
-func (sc *scen) call(faultAt int, faultErr error, guard func(f func()) bool) outcome {
+func (sc *scen) call(fp faultPlan, guard func(f func()) bool) outcome {
 	m := sc.build()
-	m.faultAt, m.faultErr = faultAt, faultErr
+	m.plan = fp
 	o := outcome{m: m, pre: map[string]bool{}, prePend: map[string]bool{}}
 	if k := m.findKey(sc.targetKeyName()); k != nil {
 		for _, v := range k.vers {
@@ -285,7 +315,12 @@ func (sc *scen) call(faultAt int, faultErr error, guard func(f func()) bool) out
 			}
 		}
 	}
-	ctx := output.NewContext(context.Background(), &output.Options{Quiet: true, KeepGoing: sc.KeepGoing})
+	base := context.Background()
+	if fp.endsCtx() {
+		m.endable = newEndableCtx(base)
+		base = m.endable
+	}
+	ctx := output.NewContext(base, &output.Options{Quiet: true, KeepGoing: sc.KeepGoing})
 	ctx = gcpkms.NewBootstrapContext(ctx, &gcpkms.BootstrapContext{RootKeyID: rootKeyID, SigningKeyID: signKeyID,
 		SigningKeyOperators: []string{"serviceAccount:signer@p.iam.gserviceaccount.com"}})
 	ctx = gcpkms.NewSigningKeyContext(ctx, &gcpkms.SigningKeyContext{SigningKeyID: signKeyID})
@@ -297,6 +332,16 @@ func (sc *scen) call(faultAt int, faultErr error, guard func(f func()) bool) out
 	}
 	mgr := &gcpkms.Manager{Project: projectID, Location: locationID, KeyRingID: ringID, KeyClient: m, IAMClient: &iamModel{m: m}}
 	o.panicked = guard(func() {
+		defer func() {
+			if m.parked.Load() { // the model aborted a call that would not end; not a panic of the repository
+				if rec := recover(); rec != nil {
+					if _, ok := rec.(hardStop); !ok {
+						panic(rec)
+					}
+					o.name, o.err = "", errAborted
+				}
+			}
+		}()
 		switch sc.Entry {
 		case eWipeout:
 			o.err = mgr.Wipeout(ctx)
@@ -313,6 +358,8 @@ func (sc *scen) call(faultAt int, faultErr error, guard func(f func()) bool) out
 	return o
 }
 
+var errAborted = errors.New("verif: the call did not return; aborted by the model at the hard RPC limit")
+
 type finding struct{ rule, detail string }
 
 // judge applies the oracles to the final state of the model. class is the outcome class for cells.
@@ -321,8 +368,12 @@ func (sc *scen) judge(o outcome, faulted bool) (fs []finding, class string) {
 	m.mu.Lock()
 	defer m.mu.Unlock()
 	if m.budgetHit {
-		fs = append(fs, finding{"call-budget-exhausted", fmt.Sprintf("the call issued more than the scenario's budget of %d RPCs (%s) and was only ended by the model refusing further calls; result err=%v",
-			m.budget, m.perMethod(), o.err)})
+		how := "was only ended by the model refusing further calls"
+		if m.parked.Load() {
+			how = fmt.Sprintf("went on although the model refused every further call, until it was aborted after %d RPCs", m.calls)
+		}
+		fs = append(fs, finding{"call-budget-exhausted", fmt.Sprintf("the call issued more than the scenario's budget of %d RPCs (%s) and %s; faults: %s (%d RPCs answered with the planned failure); result err=%v",
+			m.budget, m.perMethod(), how, m.plan, m.faultsDone, o.err)})
 	}
 	class = "ok"
 	if o.err != nil {
@@ -422,13 +473,14 @@ func (sc *scen) judge(o outcome, faulted bool) (fs []finding, class string) {
 	return fs, class
 }
 
-func (sc *scen) witness(o outcome, faultAt int, fc string) map[string]any {
+func (sc *scen) witness(o outcome) map[string]any {
 	o.m.mu.Lock()
 	defer o.m.mu.Unlock()
 	w := map[string]any{"scenario": sc, "rpcs": o.m.calls, "budget": o.m.budget, "rpcs_by_method": o.m.perMethod(), "calls_excerpt": o.m.logExcerpt(),
 		"returned_name": o.name, "returned_error": fmt.Sprint(o.err)}
-	if faultAt > 0 {
-		w["fault"] = map[string]any{"at_rpc": faultAt, "class": fc, "reached": o.m.faultHit, "method": o.m.faultMethod}
+	if o.m.plan.active() {
+		w["fault"] = map[string]any{"plan": o.m.plan, "reached": o.m.faultHit, "method": o.m.faultMethod, "triggered_at_rpc": o.m.faultFrom,
+			"rpcs_answered_with_the_failure": o.m.faultsDone}
 	}
 	return w
 }
@@ -455,6 +507,7 @@ type stats struct {
 	bootExisting, bootWaited, bootCreated  int
 	rotEnabled, rotRefused                 int
 	faultsReached                          map[string]int
+	modesReached                           map[string]int
 	slowWaited                             int
 }
 
@@ -495,14 +548,14 @@ func lifecycleCase(c *core.Ctx, i int, sc *scen, r *rand.Rand, st *stats) {
 	guard := func(g string) func(f func()) bool {
 		return func(f func()) bool { return c.Guard(i, sc.Entry, g, core.Budget{}, f).Panicked }
 	}
-	o := sc.call(0, nil, guard(gname+" fault=none"))
+	o := sc.call(faultPlan{}, guard(gname+" fault=none"))
 	if o.panicked {
 		c.Cell("%s|fault=none|panic", sc.cellPrefix())
 		return
 	}
 	fs, class := sc.judge(o, false)
 	for _, f := range fs {
-		c.Violate(core.Violation{Kind: "oracle", Entry: sc.Entry, Site: f.rule, Gen: gname + " fault=none", Case: i, Detail: f.detail, Witness: sc.witness(o, 0, "")})
+		c.Violate(core.Violation{Kind: "oracle", Entry: sc.Entry, Site: f.rule, Gen: gname + " fault=none", Case: i, Detail: f.detail, Witness: sc.witness(o)})
 	}
 	c.Cell("%s|fault=none|%s", sc.cellPrefix(), class)
 	c.Count("scenarios/"+sc.Entry, 1)
@@ -542,25 +595,49 @@ func lifecycleCase(c *core.Ctx, i int, sc *scen, r *rand.Rand, st *stats) {
 	if c.Thorough() {
 		per = 2
 	}
+	trans := transientClasses()
 	for _, p := range faultPositions(t, c.N(120, 300), r) {
+		// one failing RPC (as before), then the same position as the start of a burst, of an outage
+		// of the whole service or of the one method, and as the moment the caller's context ends
+		plans := make([]faultPlan, 0, 8)
 		for k := 0; k < per; k++ {
-			fc := classes[(p+i+k*3)%len(classes)]
-			g := fmt.Sprintf("%s fault=%s@rpc%d/%d", gname, fc.name, p, t)
-			of := sc.call(p, fc.err, guard(g))
+			plans = append(plans, planOf("single", p, classes[(p+i+k*3)%len(classes)]))
+		}
+		plans = append(plans,
+			planOf("burst", p, classes[(p+i+1)%len(classes)]),
+			planOf("outage", p, classes[(p+i+2)%len(classes)]),
+			planOf("outage", p, trans[(p+i)%len(trans)]),
+			planOf("method-outage", p, trans[(p+i+2)%len(trans)]),
+			planOf("ctx-deadline", p, faultClass{}),
+			planOf("ctx-cancel", p, faultClass{}))
+		for _, fp := range plans {
+			g := fmt.Sprintf("%s fault=%s/%d", gname, fp, t)
+			of := sc.call(fp, guard(g))
+			flabel := fp.Class
+			if fp.Mode != "single" {
+				flabel = fp.Mode + ":" + fp.Class
+			}
 			if of.panicked {
-				c.Cell("%s|fault=%s|panic", sc.cellPrefix(), fc.name)
+				c.Cell("%s|fault=%s|panic", sc.cellPrefix(), flabel)
 				continue
 			}
 			ffs, fclass := sc.judge(of, true)
 			for _, f := range ffs {
-				c.Violate(core.Violation{Kind: "oracle", Entry: sc.Entry, Site: f.rule + "(after-fault)", Gen: g, Case: i, Detail: f.detail, Witness: sc.witness(of, p, fc.name)})
+				site := f.rule + "(after-fault)"
+				if fp.Mode != "single" {
+					site = f.rule + "(" + fp.Mode + ")"
+				}
+				c.Violate(core.Violation{Kind: "oracle", Entry: sc.Entry, Site: site, Gen: g, Case: i, Detail: f.detail, Witness: sc.witness(of)})
 			}
 			if of.m.faultHit {
-				c.Cell("%s|%s|paging=%s|fault=%s:%s|%s", sc.Entry, sc.Class, sc.Paging, of.m.faultMethod, fc.name, fclass)
+				c.Cell("%s|%s|paging=%s|fault=%s:%s|%s", sc.Entry, sc.Class, sc.Paging, of.m.faultMethod, flabel, fclass)
 				c.Count("fault-runs/"+sc.Entry, 1)
+				c.Count("fault-runs-by-mode/"+fp.Mode, 1)
 				c.Count("fault-outcome/"+sc.Entry+"/"+of.m.faultMethod+"/"+fclass, 1)
+				c.Max("rpcs-answered-with-the-failure-in-one-run/"+fp.Mode, int64(of.m.faultsDone))
 				st.mu.Lock()
 				st.faultsReached[sc.Entry]++
+				st.modesReached[fp.Mode]++
 				st.mu.Unlock()
 			} else {
 				c.Count("fault-position-not-reached", 1)
@@ -573,8 +650,7 @@ func lifecycleCase(c *core.Ctx, i int, sc *scen, r *rand.Rand, st *stats) {
 
 type slowScen struct {
 	sc       *scen
-	faultAt  int
-	fault    faultClass
+	plan     faultPlan
 	expectOK bool // informational only
 	what     string
 }
@@ -589,6 +665,8 @@ func slowBatch(c *core.Ctx, i int, st *stats) {
 	}
 	with := func(s []vstate, at int, v vstate) []vstate { s[at] = v; return s }
 	polls := c.N(1, 2)
+	const never = 1 << 30
+	nthCall := func(p faultPlan, method string) faultPlan { p.Method = method; return p }
 	pk := func(id string, states []vstate, at, polls int, after vstate) keySpec {
 		k := mkKey(id, "pending-slow", states)
 		k.polls = map[int]int{at: polls}
@@ -612,9 +690,25 @@ func slowBatch(c *core.Ctx, i int, st *stats) {
 		{what: "rotation, version pending forever, context cancelled during the second poll",
 			sc: &scen{Entry: eRotate, RingExists: true, Paging: full, Keys: []keySpec{mkKey(signKeyID, "enabled", []vstate{stEnabled})}, Tmpl: verTemplate{State: stPending, Polls: 1 << 30, After: stEnabled}, CancelAtGet: 2}},
 		{what: "rotation, the second poll fails",
-			sc: &scen{Entry: eRotate, RingExists: true, Paging: full, Keys: []keySpec{mkKey(signKeyID, "enabled", []vstate{stEnabled})}, Tmpl: verTemplate{State: stPending, Polls: 3, After: stEnabled}}, faultAt: 3, fault: faultClasses()[0]},
+			sc: &scen{Entry: eRotate, RingExists: true, Paging: full, Keys: []keySpec{mkKey(signKeyID, "enabled", []vstate{stEnabled})}, Tmpl: verTemplate{State: stPending, Polls: 3, After: stEnabled}}, plan: planOf("single", 3, faultClasses()[0])},
 		{what: "signing bootstrap of a fresh key in an existing ring, first version needs polling, then IAM",
 			sc: &scen{Entry: eBootSign, RingExists: true, Paging: paging{Kind: "cap", Cap: 1}, Tmpl: verTemplate{State: stPending, Polls: polls, After: stEnabled}}},
+		// a version that never completes, and a service or a caller that gives up while it is being polled
+		{what: "rotation, version pending forever, the service is down (UNAVAILABLE) from the second poll on",
+			sc:   &scen{Entry: eRotate, RingExists: true, Paging: full, Keys: []keySpec{mkKey(signKeyID, "enabled", []vstate{stEnabled})}, Tmpl: verTemplate{State: stPending, Polls: never, After: stEnabled}},
+			plan: nthCall(planOf("outage", 2, transientClasses()[0]), "GetCryptoKeyVersion")},
+		{what: "rotation, version pending forever, polls answer DEADLINE_EXCEEDED from the second one on, everything else works",
+			sc:   &scen{Entry: eRotate, RingExists: true, Paging: full, Keys: []keySpec{mkKey(signKeyID, "enabled", []vstate{stEnabled})}, Tmpl: verTemplate{State: stPending, Polls: never, After: stEnabled}},
+			plan: nthCall(planOf("method-outage", 2, transientClasses()[1]), "GetCryptoKeyVersion")},
+		{what: "signing bootstrap, only a pending version that never completes, the caller's deadline passes during the second poll",
+			sc:   &scen{Entry: eBootSign, RingExists: true, KeepGoing: true, Paging: paging{Kind: "tokenlast"}, Keys: []keySpec{pk(signKeyID, with(dead(7), 3, stPending), 3, never, stEnabled)}},
+			plan: nthCall(planOf("ctx-deadline", 2, faultClass{}), "GetCryptoKeyVersion")},
+		{what: "root bootstrap of a fresh key whose first version never completes, the caller cancels during the second poll",
+			sc:   &scen{Entry: eBootRoot, RingExists: false, Paging: full, Tmpl: verTemplate{State: stPending, Polls: never, After: stEnabled}},
+			plan: nthCall(planOf("ctx-cancel", 2, faultClass{}), "GetCryptoKeyVersion")},
+		{what: "signing bootstrap, pending version on the second page never completes, three polls in a row fail (ABORTED), then the service recovers and the version is enabled",
+			sc:   &scen{Entry: eBootSign, RingExists: true, KeepGoing: true, Paging: full, Keys: []keySpec{pk(signKeyID, with(dead(150), 120, stPending), 120, 1, stEnabled)}},
+			plan: nthCall(planOf("burst", 2, transientClasses()[2]), "GetCryptoKeyVersion")},
 	}
 	var wg sync.WaitGroup
 	for si := range list {
@@ -635,19 +729,22 @@ func slowBatch(c *core.Ctx, i int, st *stats) {
 				c.Eval(1)
 				return false
 			}
-			o := s.sc.call(s.faultAt, s.fault.err, guard)
+			o := s.sc.call(s.plan, guard)
 			if o.panicked {
 				return
 			}
-			fs, class := s.sc.judge(o, s.faultAt > 0)
+			fs, class := s.sc.judge(o, s.plan.active())
 			for _, f := range fs {
-				c.Violate(core.Violation{Kind: "oracle", Entry: s.sc.Entry, Site: f.rule, Gen: g, Case: i, Detail: f.detail, Witness: s.sc.witness(o, s.faultAt, s.fault.name)})
+				c.Violate(core.Violation{Kind: "oracle", Entry: s.sc.Entry, Site: f.rule, Gen: g, Case: i, Detail: f.detail, Witness: s.sc.witness(o)})
 			}
 			o.m.mu.Lock()
 			gets := o.m.per["GetCryptoKeyVersion"]
 			calls := o.m.calls
 			o.m.mu.Unlock()
 			c.Cell("%s|slow|%s|polls=%d|%s", s.sc.Entry, s.what, gets, class)
+			if s.plan.active() && o.m.faultHit {
+				c.Count("slow-scenarios-in-which-the-planned-failure-was-reached/"+s.plan.Mode, 1)
+			}
 			c.Count("slow-scenarios", 1)
 			c.Max("polls-in-one-call", int64(gets))
 			c.Count("rpcs-total", calls)
@@ -840,7 +937,7 @@ func buildCases(thorough bool) []caseDef {
 
 func run(c *core.Ctx) {
 	cases := buildCases(c.Thorough())
-	st := &stats{faultsReached: map[string]int{}}
+	st := &stats{faultsReached: map[string]int{}, modesReached: map[string]int{}}
 	sst := &signStats{}
 	ranLife, ranSign, ranSlow := false, false, false
 	for i, cd := range cases {
@@ -882,5 +979,8 @@ func run(c *core.Ctx) {
 	c.Floor("polling: a call polled at least twice and succeeded", ranSlow && st.slowWaited > 0)
 	for _, e := range []string{eWipeout, eBootRoot, eBootSign, eRotate, eDestroy} {
 		c.Floor("faults reached in "+e, ranLife && st.faultsReached[e] > 0)
+	}
+	for _, mode := range []string{"single", "burst", "outage", "method-outage", "ctx-deadline", "ctx-cancel"} {
+		c.Floor("fault mode reached: "+mode, ranLife && st.modesReached[mode] > 0)
 	}
 }
